@@ -20,7 +20,7 @@ NAMES = ['x', 'y', 'z']
 
 
 def bounds(tier):
-    return dict(variables=3, functions=256, orders=6 if tier == 'thorough' else 3, sampled_4var=200 if tier == 'quick' else 3000)
+    return dict(variables=3, functions=256, orders=6 if tier == 'thorough' else 3, sampled_4var=200 if tier == 'quick' else 3000 * DEEP)
 
 
 def chunks(tier, seed):
@@ -33,10 +33,10 @@ def chunks(tier, seed):
         for warm in (0, 1):
             for part in range(4):
                 out.append(('case_routes', [dict(order=list(o), warm=warm, part=part, seed=seed)]))
-    n4 = 200 if tier == 'quick' else 3000
+    n4 = 200 if tier == 'quick' else 3000 * DEEP
     for k in range(0, n4, 50):
         out.append(('case_routes4', [dict(seed=seed * 7919 + k, count=50)]))
-    nh = 200 if tier == 'quick' else 3000
+    nh = 200 if tier == 'quick' else 3000 * DEEP
     for k in range(0, nh, 10):
         out.append(('case_history', [dict(seed=seed * 104729 + k + i, steps=10 + (k + i) % 50,
                                           names=hist.ALLNAMES[:3 + (k + i) % 3], universe=hist.ALLNAMES) for i in range(10)]))
